@@ -187,9 +187,9 @@ theorem coerceValue_fuel_sufficient (reg : Reg) : ∀ (fuel : Nat) (ty : Ty) (v 
       omega
 
 /-- `value_from_ast` body -/
-private theorem vfaCore_noFuel {reg : Reg} {rec : Ty → Lit → R} {t : Ty} {l : Lit}
+private theorem vfaCore_noFuel {vars : Option (List (String × PV))} {reg : Reg} {rec : Ty → Lit → R} {t : Ty} {l : Lit}
     (hrec : ∀ t' x, fuelFor reg t' (sizeOf x) < fuelFor reg t (sizeOf l) → NoFuel (rec t' x)) :
-    NoFuel (vfaCore reg rec t l) := by
+    NoFuel (vfaCore vars reg rec t l) := by
   unfold vfaCore
   split
   · simp [NoFuel]
